@@ -37,7 +37,12 @@ def step (u : Unit) (n : Nat) (ln : Line) : Unit × List String :=
     let isCopy := route == "copy" || route == "mpcopy"
     let d := if mc ∧ !isCopy ∧ route != "list" ∧ (!writes.isEmpty ∨ !changes.isEmpty ∨ !badReads.isEmpty)
       then [s!"DIFF {n} req {route}: model says every addressed path is inside the bucket, but the filer was touched outside"] else []
-    let j1 := match reqJudge route key src reads writes changes with | some c => [specfail n c (String.intercalate " " a)] | none => []
+    let j1 := match reqJudge route key src reads writes changes with
+      | some c =>
+        -- an escape although no addressed path has a ".." segment is a different defect than the known ones
+        let c := if mc ∧ !isCopy ∧ route != "list" then handlerOf route key ++ "/outside-bucket-without-dotdot-segment" else c
+        [specfail n c (String.intercalate " " a)]
+      | none => []
     let j2 := match internalJudge bktName route key ok with | some c => [specfail n c (String.intercalate " " a)] | none => []
     (u, d ++ j1 ++ j2 ++ [s!"COV req.{route}", if mc then "COV req.model-contained" else "COV req.model-escapes"]
       ++ (if (splitSlash (pctDecode key)).any (fun sg => sg.length > 2 ∧ sg.take 1 == [37]) then ["COV req.double-encoded-key"] else [])
